@@ -270,6 +270,15 @@ func Run(r *core.Run) {
 		}
 		rec(nil, "")
 	}
+	// a good URI with blanks or control characters around it (or after the host) is not the URI it contains: the endpoint is
+	// validated as written, because it is stored as written
+	for pi, pad := range []string{" ", "\t", "\n", "\r\n", "\u00a0", "\u2028", "\x00"} {
+		for vi, padded := range []string{pad + "https://ok.example/x", "https://ok.example/x" + pad, "https://ok.example" + pad + "/x", pad} {
+			addSvcs(fmt.Sprintf("padded-endpoint/%d/%d", pi, vi), []any{svc("svc-1", "T", padded)}, nil)
+			addSvcs(fmt.Sprintf("padded-endpoint-in-list/%d/%d", pi, vi), []any{svc("svc-1", "T", []any{"https://a.example/", padded})}, nil)
+			add(fmt.Sprintf("replace/padded-endpoint/%d/%d", pi, vi), M{"action": "replace", "document": M{"services": []any{svc("s", "T", padded)}}}, nil)
+		}
+	}
 	addSvcs("second-service-bad", []any{svc("svc-1", "T", "https://a.example/"), svc("svc-2", "T", "")}, &no)
 	// also-known-as
 	for _, a := range []string{"add-also-known-as", "remove-also-known-as"} {
